@@ -48,7 +48,19 @@ MANIFEST_ENTRY = {
             "transposed/strided/negative-stride, mixed in one stack), dtypes, list vs 3-D containers, keyword and positional call forms "
             "(parameter order pinned), argument forms (int/float/bool/NumPy scalar/numeric string/NaN/inf/None/garbage) and call histories "
             "including rejected calls, wrong-typed callee arguments and exceptions (RuntimeError, KeyboardInterrupt) injected into the k-th "
-            "cross_correlation_shift call of align_translation / align_affine.",
+            "cross_correlation_shift call of align_translation / align_affine. "
+            "ROUND 6: the batch loop of bilinear_kde as written (Model/DriftBatch.lean: utils.subdivide_batches / generate_batches, pix_count accumulated "
+            "slice by slice) with theorems in Props/C15Ext.lean — the slices tile the point list exactly for EVERY point count and batch size "
+            "(subdivide_batches_sum, subdivide_batches_bounds: ceil(n/max_batch) non-empty slices of at most max_batch points; "
+            "subdivide_batches_returns_iff: the call raises exactly for an empty point list / batch size 0), hence the weight map is independent of "
+            "max_batch_size (batched_weight_map_eq, weight_map_independent_of_batch_size) and totals the number of points on every non-empty canvas, "
+            "border / outside points included (batched_weight_map_total = front end + splat core composed). Tied by an exact stream (slices vs "
+            "generate_batches, pix_count vs weightMapBatched for batch sizes dividing the count / leaving remainder 1 / exceeding it / None, 6, 7 and 300 "
+            "points, negative coordinates, points on the last row / column) and FIXED blocks independent of the seed: pad_fraction 0 with on-axis scans "
+            "(samples exactly on the last canvas row / column), corners leaving the canvas, scan angles in every quadrant / negative / beyond 360 degrees, "
+            "knot counts 1..4; landscape and portrait canvases at upsample factors 1, 2, 8 (identical stacks; stacks rolled by +-1 px and by more than half "
+            "the shorter canvas axis against the model); one object used twice (preprocess -> align_translation / align_affine that moves the knots -> second "
+            "object with the same geometry -> preprocess again: placement, unit weights, equality with the fresh object, second alignment).",
     "note": "Trusted: Lean kernel + propext/Classical.choice/Quot.sound; scipy.interpolate.interp1d (quadratic/cubic through "
             "3/4 points = the interpolating polynomial) is modelled and measured; scipy.ndimage.gaussian_filter is modelled as a "
             "separable correlation with a symmetric normalised kernel and reflect boundary (conservation proved for that model, "
@@ -66,10 +78,12 @@ RULE = ("a case is one preprocess configuration (shape, per-image scan angles, p
         "(history of set-angles / preprocess / align_translation / align_affine / align_nonrigid calls incl. rejected and raising ones on one object, in lockstep "
         "with the state machine and a twin); distinct non-trivial = distinct (stream, shape parity/squareness, knot "
         "count, angle class [axis-aligned/oblique], pad fraction, stack size, upsample factor) with H*W > 1; for sessions distinct (stack size, mixed shapes, "
-        "identical, set of (op, reason) kinds, final knot count)")
+        "identical, set of (op, reason) kinds, final knot count); round-6 fixed blocks: reuse = distinct (shape parity, knot count, translation/affine, angle class, "
+        "upsample factor), splatb = distinct (canvas, point count, batch class [none/divides/remainder 1/remainder >1/exceeds]), batches = the fixed (n, max_batch) grid")
 TRUSTED = ["scipy.interpolate.interp1d(kind='quadratic'/'cubic') on exactly 3/4 points evaluates the interpolating polynomial",
            "scipy.ndimage.gaussian_filter(mode='reflect') conserves the array sum (measured by the weight-sum predicate)",
            "np.ravel_multi_index(mode='wrap'), np.bincount, np.linspace, np.round (half to even)",
+           "np.bincount over a slice adds the same terms as the per-point sum of the model (order of float32 accumulation is irrelevant on the dyadic inputs of the exact streams)",
            "Python float()/int() conversion rules, numbers.Number / isinstance classes of the pad_value forms (modelled in NumArg / PadArg, sampled by the session stream)",
            "the fault-injection wrapper replaces quantem.imaging.drift.cross_correlation_shift (the name the module calls); if a rewrite calls it through another name the fault "
            "does not fire, the call succeeds and is treated as a successful call (no alarm, no exception-safety verdict for that call)"]
@@ -82,6 +96,7 @@ ASSUMPTIONS = ["pad fractions whose n*(1+pad)/2 is within 1e-6 of (but not exact
                "the registration correspondence: exact argmax tie",
                "session histories keep len(scan_direction_degrees) = number of images and pad_fraction > -1 (shorter angle lists / negative canvases are not modelled)",
                "after a successful align_affine / align_nonrigid the model is not compared until the next preprocess (what the search measured is not replayed on the model)",
+               "bilinear_kde with an empty point list or max_batch_size <= 0 raises (ZeroDivisionError, modelled as `none`); negative batch sizes are outside the model",
                "a min_image_shift within 1e-2 px of the measured shift norm is not replayed on the model (the `<` test would be decided by float noise)"]
 EXPLANATION = ("Theorems in Props/C15.lean are about Model/Drift.lean and Model/DriftSession.lean; every run drives the real drift code and the model with the "
                "same configurations and compares canvas shapes, knots, coordinates, raw weight maps and measured shifts, and runs call histories "
@@ -726,6 +741,8 @@ def run_round6(ctx, drv):
     for case in r6.splatb_cases():
         run_case(ctx, drv, case)
     run_case(ctx, drv, {"stream": "batches"})
+    for case in r6.inputform_cases():
+        run_case(ctx, drv, case)
 
 
 def run_case(ctx, drv, case):
@@ -747,6 +764,9 @@ def run_case(ctx, drv, case):
     elif s == "splatb":
         from props import c15_round6
         c15_round6.case_splatb(ctx, drv, _self(), case)
+    elif s == "inputforms":
+        from props import c15_round6
+        c15_round6.case_inputforms(ctx, _self(), case)
     elif s == "batches":
         from props import c15_round6
         c15_round6.case_batches(ctx, drv, _self())
